@@ -61,6 +61,9 @@ def writebufOp (st : WState) (impl : String) : List String → Option (WState ×
   | ["wp.enq", size] => do
     let s := autoDequeue (step wpFlushOnRefusal st.wp (.enqueue (← size.toNat?)))
     some ({ st with wp := s }, renderWP "ok" s, wpVerdict impl s, "-")
+  | ["wp.enq", size, "expired"] => do   -- the write path does not look at a message's expiry: same step
+    let s := autoDequeue (step wpFlushOnRefusal st.wp (.enqueue (← size.toNat?)))
+    some ({ st with wp := s }, renderWP "ok" s, wpVerdict impl s, "-")
   | ["wp.loop"] =>
     if st.wp.inHand.isNone then some (st, renderWP "idle" st.wp, "ok", "-") else
     let s := autoDequeue (step wpFlushOnRefusal st.wp .loopWrite)
